@@ -28,6 +28,9 @@ type config struct {
 	name  string
 	rates []rateSpec
 	phase time.Duration // sub-second phase of the clock base
+	// non-default configurations
+	viaExtractRates bool // the rates are supplied per request through the ExtractRates option
+	capacity        int  // >0: Capacity option; the model then also drives a second source
 }
 
 func (c config) maxPeriod() time.Duration {
@@ -101,15 +104,25 @@ func extractor() utils.SourceExtractor {
 }
 
 func newLimiter(cfg config, capacity int, onServe func()) *ratelimit.TokenLimiter {
-	rs := ratelimit.NewRateSet()
-	for _, r := range cfg.rates {
-		if err := rs.Add(r.period, r.average, r.burst); err != nil {
-			panic(err)
+	mk := func() *ratelimit.RateSet {
+		rs := ratelimit.NewRateSet()
+		for _, r := range cfg.rates {
+			if err := rs.Add(r.period, r.average, r.burst); err != nil {
+				panic(err)
+			}
 		}
+		return rs
 	}
+	rs := mk()
 	var opts []ratelimit.TokenLimiterOption
 	if capacity > 0 {
 		opts = append(opts, ratelimit.Capacity(capacity))
+	}
+	if cfg.viaExtractRates {
+		// the same rates, but resolved for every request (a fresh RateSet each time, as an extractor would)
+		opts = append(opts, ratelimit.ExtractRates(ratelimit.RateExtractorFunc(func(*http.Request) (*ratelimit.RateSet, error) { return mk(), nil })))
+		rs = ratelimit.NewRateSet()
+		rs.Add(time.Hour, 1, 1) // default rates that must NOT be the ones in force
 	}
 	tl, err := ratelimit.New(http.HandlerFunc(func(w http.ResponseWriter, r *http.Request) {
 		onServe()
@@ -124,7 +137,7 @@ func newLimiter(cfg config, capacity int, onServe func()) *ratelimit.TokenLimite
 func newSys(cfg config) *sys {
 	clock.Freeze(base.Add(cfg.phase))
 	s := &sys{cfg: cfg, debt: map[string][]*big.Rat{}, lastT: map[string]time.Time{}}
-	s.tl = newLimiter(cfg, 0, func() { s.served++ })
+	s.tl = newLimiter(cfg, cfg.capacity, func() { s.served++ })
 	s.lastReq = clock.Now()
 	return s
 }
@@ -213,6 +226,7 @@ type opDesc struct {
 	kind   int // 0 request, 1 advance
 	amount int64
 	d      time.Duration
+	source string
 }
 
 func tpt(r rateSpec) time.Duration { return time.Duration(int64(r.period) / r.average) }
@@ -229,7 +243,14 @@ func alphabet(cfg config, tier string) ([]string, []opDesc) {
 		}
 		seenA[a] = true
 		names = append(names, fmt.Sprintf("Req(%d)", a))
-		descs = append(descs, opDesc{0, a, 0})
+		descs = append(descs, opDesc{0, a, 0, "a"})
+	}
+	if cfg.capacity > 0 {
+		// a second source, still within the capacity
+		for _, a := range []int64{1, cfg.minBurst()} {
+			names = append(names, fmt.Sprintf("Req(b,%d)", a))
+			descs = append(descs, opDesc{0, a, 0, "b"})
+		}
 	}
 	t := tpt(r0)
 	ds := []time.Duration{t / 2, t, 3 * t / 2, time.Second, time.Duration(r0.burst) * t, cfg.ttl() - 500*time.Millisecond, cfg.ttl(), cfg.ttl() + time.Second}
@@ -243,7 +264,7 @@ func alphabet(cfg config, tier string) ([]string, []opDesc) {
 		}
 		seenD[d] = true
 		names = append(names, fmt.Sprintf("Advance(%v)", d))
-		descs = append(descs, opDesc{1, 0, d})
+		descs = append(descs, opDesc{1, 0, d, ""})
 	}
 	return names, descs
 }
@@ -264,10 +285,10 @@ func model(cfg config, tier string, relative bool, depth int) *lib.Model[*sys] {
 			clock.Advance(d.d)
 			return ""
 		}
-		o := s.req("a", d.amount)
+		o := s.req(d.source, d.amount)
 		if o.served {
-			if bad := s.admit("a", d.amount); bad >= 0 {
-				return o.String() + fmt.Sprintf("/BOUND-EXCEEDED rate#%d debt=%s", bad, s.debt["a"][bad].FloatString(3))
+			if bad := s.admit(d.source, d.amount); bad >= 0 {
+				return o.String() + fmt.Sprintf("/BOUND-EXCEEDED source %s rate#%d debt=%s", d.source, bad, s.debt[d.source][bad].FloatString(3))
 			}
 		}
 		return o.String()
@@ -302,7 +323,7 @@ func model(cfg config, tier string, relative bool, depth int) *lib.Model[*sys] {
 		rep.Count("requests")
 		switch {
 		case strings.Contains(o, "BOUND-EXCEEDED"):
-			rep.Violate("C03:admission-bound-exceeded:"+cfg.name, "admitted amount exceeds burst + T/(period/average) + 1 over some interval: "+o[strings.Index(o, "rate#"):], what())
+			rep.Violate("C03:admission-bound-exceeded:"+cfg.name, "admitted amount exceeds burst + T/(period/average) + 1 over some interval: "+o[strings.Index(o, "BOUND-EXCEEDED"):], what())
 		case strings.HasPrefix(o, "200/"):
 			rep.Count("admissions")
 		case strings.HasPrefix(o, "429/"):
@@ -375,6 +396,26 @@ func checkC13(m *lib.Model[*sys], cfg config, descs []opDesc, hist []int, rep *l
 				rep.Count("free_rejection_probes")
 			}
 		}
+		// (a') ... nor later: after the same further wait the source gets the same answer with and
+		// without the rejected request (its only lasting effect may be a refreshed lifetime of the
+		// entry, which cannot matter: an entry that old holds a full bucket anyway)
+		for _, dly := range []time.Duration{tpt(cfg.rates[0]) / 2, tpt(cfg.rates[0])} {
+			for _, k := range amounts[:1] {
+				s1 := fresh()
+				clock.Advance(dly)
+				want := s1.req("a", k)
+				s2 := fresh()
+				s2.req("a", q)
+				clock.Advance(dly)
+				got := s2.req("a", k)
+				if got != want {
+					rep.Violate("C13:rejection-not-free-later:"+cfg.name,
+						fmt.Sprintf("a rejected Req(%d), then %v later Req(%d) gives %v; without the rejected request it gives %v", q, dly, k, got, want), what(fmt.Sprintf("Req(%d); Advance(%v); Req(%d)", q, dly, k)))
+					return
+				}
+				rep.Count("delayed_free_rejection_probes")
+			}
+		}
 		// (b) the advertised wait is sufficient
 		if q <= cfg.minBurst() && baseOut[q].retryIn != "" {
 			d, err := time.ParseDuration(baseOut[q].retryIn)
@@ -428,9 +469,14 @@ func configs(tier string) []config {
 	var out []config
 	for _, st := range sets {
 		for _, ph := range phases {
-			out = append(out, config{fmt.Sprintf("%s@%v", st.name, ph), st.rates, ph})
+			out = append(out, config{name: fmt.Sprintf("%s@%v", st.name, ph), rates: st.rates, phase: ph})
 		}
 	}
+	// non-default configurations: per-request rate extraction; a small capacity with two sources
+	out = append(out, config{name: "1s:1/1@300ms+ExtractRates", rates: sets[0].rates, phase: 300 * time.Millisecond, viaExtractRates: true})
+	out = append(out, config{name: "1s:1/5@0s+ExtractRates", rates: sets[3].rates, viaExtractRates: true})
+	out = append(out, config{name: "1s:1/1@0s+Capacity(2)", rates: sets[0].rates, capacity: 2})
+	out = append(out, config{name: "2s:1/2@300ms+Capacity(2)", rates: sets[4].rates, phase: 300 * time.Millisecond, capacity: 2})
 	return out
 }
 
